@@ -66,6 +66,11 @@ func legalFor(c *caseCtx, v int, kid, alg string, signer crypto.PublicKey) (lega
 				return false, "", "kid-mismatch"
 			}
 		}
+		for _, e := range c.otherS {
+			if samePub(e.K.Public(), signer) {
+				return false, "", "key-of-the-subject-client-not-of-the-issuer"
+			}
+		}
 		return false, "", "untrusted-key"
 	}
 	legal, grey, reason = acceptLegal(c.S, kid, alg, signer)
@@ -86,6 +91,9 @@ func mustAcceptFor(c *caseCtx, v int, kid, alg string, signer crypto.PublicKey) 
 		return false
 	}
 	if perClient(v) {
+		if c.sub != c.who && !c.permissive {
+			return false // the default SubjectIsIssuer check legitimately refuses before the signature is looked at
+		}
 		for _, e := range c.S {
 			if e.Kid == kid {
 				return samePub(e.K.Public(), signer) && usePermitsSig(e.Use) && fits(signer, alg, true)
@@ -168,13 +176,50 @@ func runCase(run *ev.Run, w *worker, v int, i int, onlyOp string) {
 	} else {
 		c.who = fmt.Sprintf("user-%d", i%97)
 	}
-	c.P = mkPayload(c.kind, marker, c.who, now, false)
-	c.Evil = mkPayload(c.kind, "evil-"+marker, evilWho, now, v == vHint && r.IntN(3) == 0)
+	c.sub, c.subMode = c.who, "iss"
+	if v == vAssertion {
+		c.permissive = r.IntN(2) == 0
+		switch x := r.IntN(10); {
+		case x < 4:
+		case x < 8:
+			c.sub, c.subMode = fmt.Sprintf("client-%d-%d-other", v, i), "other-client"
+			c.otherS = genOtherClientKeys(r, c.S)
+		default:
+			c.sub, c.subMode = fmt.Sprintf("client-%d-%d-unknown", v, i), "unknown"
+		}
+	}
+	c.P = mkPayloadSub(c.kind, marker, c.who, c.sub, now, false)
+	if v == vAssertion {
+		c.Evil = mkPayloadSub(c.kind, "evil-"+marker, c.who, c.sub, now, false)
+	} else {
+		c.Evil = mkPayload(c.kind, "evil-"+marker, evilWho, now, v == vHint && r.IntN(3) == 0)
+	}
 
 	// signer, kid and algorithm of the genuinely signed base token
 	var signer *keys.Key
 	kid := ""
-	if r.IntN(4) != 0 {
+	c.signerOf = "unregistered"
+	if c.subMode == "other-client" && r.IntN(5) < 2 {
+		// signed with a key registered for the client named in sub (not for the issuer), under that key's own kid -
+		// which may be a kid string the issuer uses for a different key - or under a kid of the issuer
+		c.signerOf = "sub-client"
+		e := c.otherS[r.IntN(len(c.otherS))]
+		signer = e.K
+		switch x := r.IntN(10); {
+		case x < 6:
+			kid, c.kidMode = e.Kid, "sub-client-key's-own"
+			for _, a := range c.S {
+				if a.Kid == kid {
+					c.kidMode = "same-kid-registered-for-both-clients"
+				}
+			}
+		case x < 9:
+			kid, c.kidMode = c.S[r.IntN(len(c.S))].Kid, "issuer-key's"
+		default:
+			kid, c.kidMode = "", "absent"
+		}
+	} else if r.IntN(4) != 0 {
+		c.signerOf = "iss-client"
 		c.signerIn = true
 		ei := r.IntN(len(c.S))
 		e := c.S[ei]
@@ -270,6 +315,11 @@ func runCase(run *ev.Run, w *worker, v int, i int, onlyOp string) {
 				"allow_list": allowName(c.allowIdx), "base_signer": keyName(signer), "base_alg": alg, "base_kid": kid, "base_token": c.base.Token,
 				"error": err2str(out.err), "claims_returned": out.m, "genuine_payload": string(c.P), "forged_payload": string(c.Evil),
 				"claims_type": map[bool]string{true: "library type", false: "raw-capturing type"}[out.typed], "case": i}
+			if v == vAssertion {
+				wit["subject_check"] = map[bool]string{true: "op.SubjectCheck(func(*oidc.JWTTokenRequest) error { return nil })", false: "default SubjectIsIssuer"}[c.permissive]
+				wit["iss"], wit["sub"], wit["signed_by_key_of"] = c.who, c.sub, c.signerOf
+				wit["keys_registered_for_sub_client"] = describeSet(c.otherS)
+			}
 			if c.cached != nil {
 				wit["cached_key_set"] = describeSet(c.cached)
 				wit["skip_remote_check"] = skipRemote
@@ -294,7 +344,7 @@ func runCase(run *ev.Run, w *worker, v int, i int, onlyOp string) {
 			run.Count("variants", pr.Op+"/"+pr.Variant)
 		}
 		if decidingStepReached(out) {
-			run.Distinct(strings.Join([]string{vname, pr.Op, pr.Variant, shapeSig(c.S), allowName(c.allowIdx), c.kidMode, fmt.Sprint(c.signerIn), c.algMode, cacheMode, fmt.Sprint(out.accepted)}, "|"))
+			run.Distinct(strings.Join([]string{vname, pr.Op, pr.Variant, shapeSig(c.S), allowName(c.allowIdx), c.kidMode, fmt.Sprint(c.signerIn), c.algMode, cacheMode, fmt.Sprint(out.accepted), subjectDim(c, v)}, "|"))
 		}
 		if !out.accepted {
 			ec := errClass(out.err)
@@ -309,6 +359,12 @@ func runCase(run *ev.Run, w *worker, v int, i int, onlyOp string) {
 						reason = "legal-but-not-unique(grey)"
 					}
 					run.Count("genuine-rejected-because:"+vname, reason+" -> "+ec)
+					if v == vAssertion {
+						run.Count("subject-dimension:"+vname, subjectDim(c, v)+" kid="+c.kidMode+" -> rejected: "+ec)
+						if c.permissive && c.signerOf == "sub-client" && strings.HasPrefix(ec, "ErrSignatureInvalid") {
+							run.Observed("subject-clients-key-refused-at-signature:" + vname)
+						}
+					}
 					if ec == "ErrSignatureInvalid(ErrKeyMultiple)" && kid == "" {
 						run.Observed("ambiguity-reported:" + vname)
 					}
@@ -383,9 +439,26 @@ func runCase(run *ev.Run, w *worker, v int, i int, onlyOp string) {
 		}
 		if pr.Op == "genuine" {
 			run.Observed("accept-genuine:" + vname)
+			if v == vAssertion {
+				run.Count("subject-dimension:"+vname, subjectDim(c, v)+" kid="+c.kidMode+" -> accepted")
+				if c.permissive && c.subMode == "other-client" {
+					run.Observed("delegated-subject-accepted-under-issuer-key:" + vname)
+				}
+			}
 		}
 		sampleMaybe(run, vname, pr, out, c)
 	}
+}
+
+func subjectDim(c *caseCtx, v int) string {
+	if v != vAssertion {
+		return ""
+	}
+	chk := "SubjectIsIssuer"
+	if c.permissive {
+		chk = "permissive-SubjectCheck"
+	}
+	return chk + "/sub=" + c.subMode + "/signed-by=" + c.signerOf
 }
 
 func sampleMaybe(run *ev.Run, vname string, pr *presented, out outcome, c *caseCtx) {
@@ -423,6 +496,7 @@ func main() {
 		"oidc.FindMatchingKey is enumerated completely over all key sets of <=3 keys x kid in {none,a,b} x use in {sig,enc,none} x {RSA,EC P-256,EC P-384,Ed25519} x 4 token kids x 9 algorithms and sampled for 4-5 keys")
 	run.Assume("acceptance is judged by provenance (the harness' ledger of what it signed), never by string equality with what was serialised",
 		"per-client keys (JWT assertion, request object) are selected by the storage by exact key ID; a client key registered with use=enc is grey there",
+		"op-jwt-assertion: the trust set is the keys the storage holds for the client named in iss, whatever sub says; with the default SubjectIsIssuer check a token with sub != iss may be refused before the signature is looked at",
 		"a token with kid facing several kid-less candidate keys is grey (DESIGN 6a); an EC key of another curve counts as a candidate for ambiguity only in favour of the library",
 		"remote key set: an acceptance is legal if it is legal for the cached or for the currently served document; must-accept only when both agree",
 		"a payload of JSON null is C09's subject and is not generated here")
@@ -433,6 +507,7 @@ func main() {
 			mand = append(mand, "ambiguity-reported:"+n)
 		}
 	}
+	mand = append(mand, "delegated-subject-accepted-under-issuer-key:op-jwt-assertion", "subject-clients-key-refused-at-signature:op-jwt-assertion")
 	mand = append(mand, "FindMatchingKey:enumeration-complete", "FindMatchingKey:ambiguity-seen", "FindMatchingKey:exact-seen", "FindMatchingKey:unique-kidless-seen")
 	run.Mandatory(mand...)
 	initPool()
